@@ -3,6 +3,7 @@ package props
 import (
 	"fmt"
 	"io"
+	"net/url"
 	"runtime"
 	"strings"
 	"sync"
@@ -291,6 +292,31 @@ func c20ops(s *dp.Schema, paths []string) []c20op {
 			return nodeutil.WriteJSON(b.Root())
 		}},
 	}
+	// a valid filter on every list at hand (its key leaf against a literal)
+	for _, pth := range paths {
+		if i := strings.LastIndex(pth, "="); i > 0 && !strings.Contains(pth[i:], "/") {
+			lp := pth[:i]
+			key := ""
+			if n := s.Mod; n != nil {
+				if def := meta.Find(n, lp); def != nil {
+					if l, ok := def.(*meta.List); ok && len(l.KeyMeta()) > 0 {
+						key = l.KeyMeta()[0].Ident()
+					}
+				}
+			}
+			if key == "" {
+				continue
+			}
+			pp := lp + "?where=" + url.QueryEscape(key+"!='no such key'")
+			ops = append(ops, c20op{"find-where", func(b *node.Browser, s *dp.Schema, _ *dp.DNode) (string, error) {
+				sel, err := b.Root().Find(pp)
+				if err != nil || sel == nil {
+					return fmt.Sprintf("nil,%v", err), nil
+				}
+				return nodeutil.WriteJSON(sel)
+			}})
+		}
+	}
 	for i, pth := range paths {
 		pp := pth + q[i%len(q)]
 		ops = append(ops, c20op{"find", func(b *node.Browser, s *dp.Schema, _ *dp.DNode) (string, error) {
@@ -348,6 +374,12 @@ func (p c20) use(c *core.Ctx, clock *opClock, G int, mixed bool) {
 		for i, op := range ops {
 			b := store.Browser()
 			var t0 int64
+			if clk != nil && g%2 == 1 {
+				// every other client also sends requests that are refused (filters that do not parse); a refused request leaves
+				// nothing behind, for this client or for another
+				hostile := []string{"?where==5", "?where=" + url.QueryEscape("a='x'='y'"), "?where=" + url.QueryEscape("a>1<3"), "?where=" + url.QueryEscape("a/='x'"), "?depth=abc", "no/such/node"}
+				store.Browser().Root().Find(hostile[i%len(hostile)])
+			}
 			if clk != nil {
 				t0 = clk.begin()
 			}
